@@ -14,7 +14,7 @@ import (
 // filterSpec is a set of accepted types, rendered with FilterType / FilterOr / FilterAnd.
 type filterSpec struct {
 	tys  []int
-	nest int // 0: FilterOr(types…), 1: FilterAnd(FilterOr(types…), FilterOr(types…)), 2: FilterOr(FilterAnd(t), …)
+	nest int // 0: FilterOr(types…), 1: FilterAnd(FilterOr(types…), FilterOr(types…)), 2: FilterOr(FilterAnd(t), …), 3: FilterOr(types…, FilterAnd()), 4: FilterAnd(FilterOr(types…), FilterOr())
 }
 
 func (f *filterSpec) mk() am.FilterFunc {
@@ -31,6 +31,10 @@ func (f *filterSpec) mk() am.FilterFunc {
 			gs = append(gs, am.FilterAnd(x))
 		}
 		return am.FilterOr(gs...)
+	case 3: // an empty conjunction among the alternatives: admits everything
+		return am.FilterOr(append(fs, am.FilterAnd())...)
+	case 4: // an empty disjunction as a conjunct: admits nothing
+		return am.FilterAnd(am.FilterOr(fs...), am.FilterOr())
 	}
 	return am.FilterOr(fs...)
 }
@@ -200,11 +204,14 @@ func genRedefScenario(r *rng) (*scenario, *filterSpec, *filterSpec) {
 	}
 	var fin, fout *filterSpec
 	if r.chance(5, 6) {
-		fin = &filterSpec{nest: r.intn(3)}
+		fin = &filterSpec{nest: []int{0, 1, 2, 0, 1, 2, 0, 1, 2, 3, 4}[r.intn(11)]}
 		for _, t := range types {
 			if r.chance(1, 2) {
 				fin.tys = append(fin.tys, t)
 			}
+		}
+		if r.chance(1, 12) {
+			fin.tys = nil // FilterOr(): admits nothing
 		}
 		if r.chance(1, 3) { // make sure the parameters themselves are permitted
 			for _, l := range tIns {
@@ -216,11 +223,14 @@ func genRedefScenario(r *rng) (*scenario, *filterSpec, *filterSpec) {
 		fin = &filterSpec{nest: r.intn(3), tys: farEnds}
 	}
 	if r.chance(1, 3) {
-		fout = &filterSpec{}
+		fout = &filterSpec{nest: []int{0, 0, 0, 1, 2, 3, 4}[r.intn(7)]}
 		for _, t := range types {
 			if r.chance(2, 3) {
 				fout.tys = append(fout.tys, t)
 			}
+		}
+		if r.chance(1, 12) {
+			fout.tys = nil
 		}
 	}
 	return sc, fin, fout
@@ -333,7 +343,7 @@ func genRedef(w *bufio.Writer, r *rng, id int) {
 		fmt.Fprintf(w, "scn redef %d builderr\nbuilderr %s\nend\n", id, strings.ReplaceAll(err.Error(), "\n", " "))
 		return
 	}
-	sc.header(w, "redef", id, fmt.Sprintf("fin=%s finnest=%d fout=%s subs=%v", fin.String(), nestOf(fin), fout.String(), sc.Subs || sc.Collide))
+	sc.header(w, "redef", id, fmt.Sprintf("fin=%s finnest=%d fout=%s foutnest=%d subs=%v", fin.String(), nestOf(fin), fout.String(), nestOf(fout), sc.Subs || sc.Collide))
 	var extraFilters []am.Arg
 	if fin != nil {
 		extraFilters = append(extraFilters, am.FilterInput(fin.mk()))
@@ -378,12 +388,17 @@ func genRedef(w *bufio.Writer, r *rng, id int) {
 	for _, v := range newFn.Input().Values() {
 		vid++
 		ty := concreteFor(r, tyID(v.Type))
+		val, id := mkValue(ty, vid, -1).Interface(), vid
+		if (ty == tyL0 || ty == tyLU) && vid%2 == 0 {
+			// a nil slice is a value like any other (provenance id 0): the redefined function must pass it on
+			val, id = reflect.Zero(tyOf(ty)).Interface(), 0
+		}
 		if v.Name != "" {
-			extra = append(extra, optSpecC{Kind: "named", Name: v.Name, Ty: ty, Vid: vid})
-			outer = append(outer, am.Named(v.Name, mkValue(ty, vid, -1).Interface()))
+			extra = append(extra, optSpecC{Kind: "named", Name: v.Name, Ty: ty, Vid: id})
+			outer = append(outer, am.Named(v.Name, val))
 		} else {
-			extra = append(extra, optSpecC{Kind: "typed", Ty: ty, Vid: vid})
-			outer = append(outer, am.Typed(mkValue(ty, vid, -1).Interface()))
+			extra = append(extra, optSpecC{Kind: "typed", Ty: ty, Vid: id})
+			outer = append(outer, am.Typed(val))
 		}
 	}
 	// the redefined function passes named values first, then typed ones (map iteration inside each group)
@@ -542,9 +557,38 @@ func genConv(w *bufio.Writer, r *rng, id int) {
 	if r.chance(1, 4) && sc.buildAll() == nil {
 		sc.gensify(r) // some converters come from converter generators
 	}
+	if r.chance(1, 10) {
+		// a malformed option (a nil Arg, a nil or non-function converter, …): Convert must end as the identity call does
+		kinds := []string{"nil", "nil", "convnil", "convbad", "namednil", "gennil"}
+		o := optSpecC{Kind: kinds[r.intn(len(kinds))], Name: "a"}
+		pos := r.intn(len(sc.Opts) + 1)
+		sc.Opts = append(sc.Opts[:pos], append([]optSpecC{o}, sc.Opts[pos:]...)...)
+	}
 	if err := sc.buildAll(); err != nil {
 		fmt.Fprintf(w, "scn conv %d builderr\nbuilderr %s\nend\n", id, strings.ReplaceAll(err.Error(), "\n", " "))
 		return
+	}
+	if id%4 == 0 {
+		// the option slice handed to Convert belongs to the caller: a longer list sharing its array must not change
+		defer func() {
+			verdict := "skip"
+			if recovered(func() {
+				base := sc.callArgs(false)
+				withCap := make([]am.Arg, len(base), len(base)+4)
+				copy(withCap, base)
+				full := append(withCap, am.Named("zzsentinel", K9{ID: 4242}))
+				am.Convert(tyOf(T), withCap...)
+				d := am.VerifBuilder(nil, full[len(withCap)])
+				if v, ok := d.Named["zzsentinel"]; ok && vidOf(v) == 4242 {
+					verdict = "intact"
+				} else {
+					verdict = "modified"
+				}
+			}) {
+				verdict = "panic"
+			}
+			fmt.Fprintf(w, "scn alias %d\ncvalias %s\nend\n", id, verdict)
+		}()
 	}
 	sc.header(w, "conv", id, fmt.Sprintf("T=%d", T))
 	fmt.Fprintln(w, sc.dumpGraph(false))
